@@ -642,3 +642,194 @@ def region_entries(body, region):
         if b == 0 or any(p not in region for p in pred[b]):
             out.add(b)
     return out
+
+
+# ---------------------------------------------------------------------- path enumeration (A6)
+
+def enumerate_paths(body, succ_map=None, start=0, max_paths=20000, loop_visits=1):
+    """All normal entry->return paths visiting each block at most `loop_visits` times (back edges are
+    followed at most that often).  Paths ending in diverging calls / unreachable are yielded with
+    kind 'diverge'.  Yields (kind, [blocks])."""
+    if succ_map is None:
+        succ_map = {b: body.normal_succ(b) for b in range(body.n)}
+    out = []
+    stack = [(start, [start], {start: 1})]
+    while stack:
+        bb, path, cnt = stack.pop()
+        t = body.term(bb)
+        succs = succ_map.get(bb, [])
+        if t["k"] == "return":
+            out.append(("return", path))
+        elif not succs:
+            out.append(("diverge", path))
+        else:
+            for s in succs:
+                if cnt.get(s, 0) >= loop_visits:
+                    continue
+                c2 = dict(cnt)
+                c2[s] = c2.get(s, 0) + 1
+                stack.append((s, path + [s], c2))
+        if len(out) > max_paths:
+            raise RuntimeError("path explosion in %s" % body.path)
+    return out
+
+
+def self_field_stores(body, flow, self_param=1):
+    """[(bb, idx, field_name, value_expr)] statements storing into a field reached from the self parameter."""
+    res = []
+    for (bb, i, s) in flow.stores:
+        if i == "term" or body.is_cleanup(bb):
+            continue
+        pe = flow.place_expr(s["place"])
+        if pe[0] == "proj" and strip_refs(pe[1])[0] == "param" and pe[2] and pe[2][-1].startswith("."):
+            root = strip_refs(pe[1])
+            res.append((bb, i, pe[2][-1], flow.rvalue_expr(s["rv"], bb), root[1], pe))
+        elif pe[0] == "proj" and pe[2] and pe[2][-1].startswith("."):
+            base = strip_refs(pe[1])
+            # through a Pin<&mut Self> deref_mut etc.
+            while base[0] == "proj":
+                base = strip_refs(base[1])
+            if base[0] == "param":
+                res.append((bb, i, pe[2][-1], flow.rvalue_expr(s["rv"], bb), base[1], pe))
+    return res
+
+
+def is_inc_of(expr, field, by=None):
+    """expr == field +/- const (after the overflow-check tuple projection).  Returns +k / -k or None."""
+    e = expr
+    if e[0] == "proj" and e[2] == (".0",):
+        e = e[1]
+    if e[0] == "multi":
+        return None
+    if e[0] == "binop" and e[1] in ("Add", "AddWithOverflow", "Sub", "SubWithOverflow", "AddUnchecked", "SubUnchecked"):
+        a, b = e[2], e[3]
+        if a[0] == "proj" and a[2] and a[2][-1] == field and b[0] == "const":
+            try:
+                k = int(b[2])
+            except ValueError:
+                return None
+            return k if e[1].startswith("Add") else -k
+    return None
+
+
+def first_entries(body, flow, start, region, succ_map=None):
+    """Blocks of `region` that are reached first on some feasible normal path from `start`
+    (search does not continue through region blocks)."""
+    if succ_map is None:
+        succ_map, _ = feasible_cfg(body, flow)
+    region = set(region)
+    seen = {start}
+    dq = deque([start])
+    ents = set()
+    while dq:
+        b = dq.popleft()
+        for s in succ_map.get(b, []):
+            if s in region:
+                ents.add(s)
+                continue
+            if s not in seen:
+                seen.add(s)
+                dq.append(s)
+    return ents
+
+
+def flag_search(body, flow, start, stop=(), init=None, max_states=200000):
+    """Path-sensitive search over (block, constant-flag valuation, known enum variants) states from `start`
+    on normal edges.  Does not expand blocks in `stop` (they are reported as hit).  Flags unknown at `start`
+    are taken from `init` (dict) or from the join computed by feasible_cfg at `start`; variant knowledge
+    starts from the must-facts at `start`.  Discriminant switches on a place whose variant is already
+    known on the path only follow the matching edge.
+    Returns (visited_blocks, hit_stop_blocks)."""
+    flags = const_flag_locals(body, flow)
+    if init is None:
+        _, st_in = feasible_cfg(body, flow)
+        init = {k: v for k, v in st_in.get(start, {}).items()}
+    vinit = dict(variant_facts(body, flow).get(start, frozenset()))
+    stop = set(stop)
+    labels = {bb: flow.edge_labels(bb) for bb in range(body.n) if body.term(bb)["k"] == "switch"}
+
+    def freeze(d, v):
+        return (tuple(sorted((k, tuple(sorted(x))) for k, x in d.items())), tuple(sorted(v.items())))
+
+    def kill(v, local):
+        pre = "_%d" % local
+        return {p: x for p, x in v.items() if _base_local(p) != pre}
+
+    seen = set()
+    visited = set()
+    hits = set()
+    dq = deque([(start, dict(init), vinit)])
+    while dq:
+        bb, st, vk = dq.popleft()
+        key = (bb, freeze(st, vk))
+        if key in seen:
+            continue
+        seen.add(key)
+        if len(seen) > max_states:
+            raise RuntimeError("flag_search state explosion in %s" % body.path)
+        visited.add(bb)
+        st = dict(st)
+        vk = dict(vk)
+        for s in body.stmts(bb):
+            if s["k"] == "assign" and not s["place"]["p"]:
+                if s["place"]["l"] in flags:
+                    st[s["place"]["l"]] = frozenset((int(s["rv"]["op"]["bits"]) & 1,))
+                vk = kill(vk, s["place"]["l"])
+        t = body.term(bb)
+        outs = []
+        if t["k"] == "switch" and t["discr"]["k"] in ("copy", "move") and not t["discr"]["place"]["p"] \
+                and t["discr"]["place"]["l"] in flags:
+            fl_ = t["discr"]["place"]["l"]
+            vals = st.get(fl_, frozenset((0, 1)))
+            tv = {int(v): tgt for v, tgt in t["targets"]}
+            for v in vals:
+                st2 = dict(st)
+                st2[fl_] = frozenset((v,))
+                outs.append((tv.get(v, t["otherwise"]), st2, vk))
+        elif t["k"] == "switch" and bb in labels and any(l[0] in ("variant", "notvariants") for ls in labels[bb].values() for l in ls):
+            for tgt in body.normal_succ(bb):
+                labs = [l for l in labels[bb].get(tgt, []) if l[0] in ("variant", "notvariants")]
+                feasible = False
+                vk2 = dict(vk)
+                for lab in labs:
+                    p = place_str(lab[3])
+                    known = vk.get(p)
+                    if lab[0] == "variant":
+                        if known is None or known == lab[2]:
+                            feasible = True
+                            if len(labs) == 1 and lab[2] is not None:
+                                vk2[p] = lab[2]
+                    else:
+                        if known is None or known not in lab[2]:
+                            feasible = True
+                if not labs:
+                    feasible = True
+                if feasible:
+                    outs.append((tgt, st, vk2))
+        else:
+            vk2 = vk
+            if t["k"] == "call" and not t["dest"]["p"]:
+                vk2 = kill(vk, t["dest"]["l"])
+            for s in body.normal_succ(bb):
+                outs.append((s, st, vk2))
+        for tgt, st2, vk2 in outs:
+            if tgt in stop:
+                hits.add(tgt)
+                continue
+            dq.append((tgt, st2, vk2))
+    return visited, hits
+
+
+def first_entries(body, flow, start, region, succ_map=None):  # noqa: F811  (path-sensitive version)
+    """Blocks of `region` reached first on some flag-feasible normal path from `start`."""
+    _, hits = flag_search(body, flow, start, stop=region)
+    return hits
+
+
+def must_pass_flags(body, flow, src, dsts, via, avoid=()):
+    """Path-sensitive must-pass-through: no flag-feasible normal path from src reaches a block of dsts
+    without entering a block of via (paths entering `avoid` are ignored)."""
+    if src in set(via):
+        return True
+    visited, hits = flag_search(body, flow, src, stop=set(via) | set(avoid))
+    return not (visited & set(dsts))
